@@ -10,8 +10,9 @@
    configured address.  Signature verification and the allowance check are the answers the real
    signer / store gave (fields of the Arrive event). *)
 From Coq Require Import List NArith ZArith Bool.
+From MevVerif Require Import model.Eip712 model.Signer.
 From MevVerif Require Import lib.Bytes model.Rules model.ProviderSvc model.PreconfProvider
-  proofs.PreconfProvider_proofs.
+  proofs.PreconfProvider_proofs proofs.PreconfProvider_traces proofs.PreconfProvider_signed.
 Import ListNotations.
 Open Scope N_scope.
 
@@ -32,6 +33,29 @@ Theorem C01_gate : forall K addr evs e,
     (forall h c, e = HWrite h c -> c_bid c = b).
 Proof. exact gate_node. Qed.
 Print Assumptions C01_gate.
+
+(* The same with the signer model in place of the VerifyBid oracle (C02_sound_bid): in every history
+   whose Arrive events carry [Signer.verify_bid K cr] of the bid read from the wire and the allowance
+   answer for the recovered signer ([signed_history]), a commit effect implies that the presented
+   digest is [bid_hash] of exactly the bid's fields, that the 65-byte signature recovers to a key
+   passing the low-S check whose address a is the one the allowance check approved, that the bid's own
+   fields satisfy the published format rules, and that the engine accepted exactly this digest. *)
+Theorem C01_gate_signed : forall (K : bytes -> bytes) (cr : crypto) addr evs e,
+  signed_history K cr evs ->
+  In e (heff (run K rules_validators (node_wiring addr) evs)) -> is_commit_effect e = true ->
+  exists role allowf w d sg a,
+    In (Arrive (eff_handler e) role (oracle_of K cr allowf (Some w))) evs /\
+    role = role_bidder /\
+    Eip712.b_dig w = Some d /\ Eip712.b_sig w = Some sg /\ bid_hash K w = Ok d /\ length sg = 65%nat /\
+    (exists v pk, nth_error sg 64 = Some v /\ recover cr d (firstn 64 sg ++ [v_to01 v]) = Ok pk /\
+                  verify_rs cr pk d (firstn 64 sg) = true /\ a = addr_of cr pk) /\
+    allowf a = true /\
+    provider_bid_ok (split comma (Eip712.b_tx w)) (Eip712.b_amt w) (Eip712.b_bn w) d (Eip712.b_ds w) (Eip712.b_de w) = true /\
+    (exists sid, In (Lookup sid d status_accepted) evs) /\
+    In (HTake (eff_handler e) status_accepted) (heff (run K rules_validators (node_wiring addr) evs)) /\
+    (forall h c, e = HWrite h c -> c_bid c = of_wire w).
+Proof. exact gate_signed. Qed.
+Print Assumptions C01_gate_signed.
 
 (* Every other handler -- wrong role, unreadable or unverifiable bid, allowance refused, format
    refused, or no ACCEPTED decision for its digest anywhere in the history (reject, malformed status,
@@ -71,7 +95,95 @@ Theorem C01_gate_any_wiring : forall K V W evs e,
     (forall h c, e = HWrite h c -> c_bid c = b).
 Proof. exact gate. Qed.
 Print Assumptions C01_gate_any_wiring.
-(* Not proved here (named in the evidence): that the return value of a refusing handler is an error
-   rather than nil is covered by the correspondence check only (return codes are compared case by
-   case); "before the deadline" is expressed through the handler's own receipt of the status (HTake),
-   not as a position in the effect list. *)
+
+(* ---- "the bidder gets an error or nothing": return class and exact trace of every refusal --------
+   [hist h s] is the list of all effects of handler h, newest first; [shape] (proofs/
+   PreconfProvider_traces.v) classifies it completely by the handler's control state. *)
+
+(* For every event list and every handler: the complete effect trace is the one determined by the
+   control state -- nothing before the decision; Take,Sign,Send while storing; +Stored,Write while
+   writing; and for a returned handler exactly the trace of its return class. *)
+Theorem C01_trace : forall K addr evs h,
+  shape K (node_wiring addr) h (nget h (hs (run K rules_validators (node_wiring addr) evs)))
+        (hist h (run K rules_validators (node_wiring addr) evs)).
+Proof. exact (fun K addr => handler_trace K rules_validators (node_wiring addr)). Qed.
+Print Assumptions C01_trace.
+
+(* role / read / signature / allowance refusals: the handler has returned ErrInvalidBidderTypeForBid
+   (RRole), the read error (RRead), InvalidArgument (RVerify), FailedPrecondition (RAllow), and that
+   return is its only effect. *)
+Theorem C01_refusal_gate : forall K addr evs h role o r,
+  nget h (arr (run K rules_validators (node_wiring addr) evs)) = Some (role, o) -> gate_class role o = Some r ->
+  (r = RRole \/ r = RRead \/ r = RVerify \/ r = RAllow) /\
+  nget h (hs (run K rules_validators (node_wiring addr) evs)) = Some (HDone r) /\
+  hist h (run K rules_validators (node_wiring addr) evs) = [HReturn h r].
+Proof.
+  exact (fun K addr evs h role o r Ha Hg =>
+           conj (gate_class_range K role o r Hg) (refusal_gate K rules_validators (node_wiring addr) evs h role o r Ha Hg)).
+Qed.
+Print Assumptions C01_refusal_gate.
+
+(* format refusal: the validation error of ProcessBid (RFormat), only effect. *)
+Theorem C01_refusal_format : forall K addr evs h role o b,
+  nget h (arr (run K rules_validators (node_wiring addr) evs)) = Some (role, o) ->
+  gate_class role o = None -> o_read o = Some b -> vbid rules_validators (to_engine b) = false ->
+  nget h (hs (run K rules_validators (node_wiring addr) evs)) = Some (HDone RFormat) /\
+  hist h (run K rules_validators (node_wiring addr) evs) = [HReturn h RFormat].
+Proof.
+  exact (fun K addr evs h role o b Ha Hg Hr Hv =>
+           refusal_format K rules_validators (node_wiring addr) evs h role o b Ha Hg Hr (node_wiring_api addr) Hv).
+Qed.
+Print Assumptions C01_refusal_format.
+
+(* engine said REJECTED: Internal "bid rejected" (RRejected); trace = receipt of the status, return. *)
+Theorem C01_refusal_reject : forall K addr evs h,
+  In (HTake h status_rejected) (heff (run K rules_validators (node_wiring addr) evs)) ->
+  nget h (hs (run K rules_validators (node_wiring addr) evs)) = Some (HDone RRejected) /\
+  hist h (run K rules_validators (node_wiring addr) evs) = [HReturn h RRejected; HTake h status_rejected].
+Proof. exact (fun K addr => refusal_reject K rules_validators (node_wiring addr)). Qed.
+Print Assumptions C01_refusal_reject.
+
+(* a status outside {ACCEPTED, REJECTED} (never delivered by the service: C12_at_most_once): nil, nothing. *)
+Theorem C01_refusal_undefined_status : forall K addr evs h stv,
+  In (HTake h stv) (heff (run K rules_validators (node_wiring addr) evs)) ->
+  stv <> status_accepted -> stv <> status_rejected ->
+  nget h (hs (run K rules_validators (node_wiring addr) evs)) = Some (HDone RNil) /\
+  hist h (run K rules_validators (node_wiring addr) evs) = [HReturn h RNil; HTake h stv].
+Proof. exact (fun K addr => refusal_other_status K rules_validators (node_wiring addr)). Qed.
+Print Assumptions C01_refusal_undefined_status.
+
+(* silence: when the deadline fires on a waiting handler (or the context ends while the bid is still
+   offered) the handler returns the context error (RCtx), and that return is its only effect. *)
+Theorem C01_refusal_deadline : forall K addr evs h,
+  nget h (hs (run K rules_validators (node_wiring addr) evs)) = Some (HDone RCtx) ->
+  hist h (run K rules_validators (node_wiring addr) evs) = [HReturn h RCtx].
+Proof. exact (fun K addr => refusal_deadline K rules_validators (node_wiring addr)). Qed.
+Print Assumptions C01_refusal_deadline.
+
+Theorem C01_deadline_step : forall K addr s h b,
+  panicked (svc s) = false -> nget h (hs s) = Some (HInSvc b false) ->
+  (exists b0, nget h (calls (svc s)) = Some (PHanded b0)) ->
+  nget h (hs (step K rules_validators (node_wiring addr) s (DeadlineFire h))) = Some (HDone RCtx).
+Proof. exact (fun K addr => deadline_step K rules_validators (node_wiring addr)). Qed.
+Print Assumptions C01_deadline_step.
+
+(* late and duplicate decisions, and anything else that happens after a handler has returned, change
+   neither its state nor its trace. *)
+Theorem C01_returned_is_final : forall K addr evs evs' h r,
+  nget h (hs (run K rules_validators (node_wiring addr) evs)) = Some (HDone r) ->
+  nget h (hs (run K rules_validators (node_wiring addr) (evs ++ evs'))) = Some (HDone r) /\
+  hist h (run K rules_validators (node_wiring addr) (evs ++ evs')) = hist h (run K rules_validators (node_wiring addr) evs).
+Proof. exact (fun K addr => done_final K rules_validators (node_wiring addr)). Qed.
+Print Assumptions C01_returned_is_final.
+
+(* Summary: a handler that returned with a refusal class (role, read, verify, allowance, format,
+   context/deadline, rejected, nil) has no effect other than that return and, at most, the receipt of
+   a status that is not ACCEPTED: no commitment signature, settlement transaction or commitment message. *)
+Theorem C01_error_or_nothing : forall K addr evs h r,
+  nget h (hs (run K rules_validators (node_wiring addr) evs)) = Some (HDone r) -> refusal_class r = true ->
+  forall e, In e (heff (run K rules_validators (node_wiring addr) evs)) -> eff_handler e = h ->
+            e = HReturn h r \/ exists stv, e = HTake h stv /\ stv <> status_accepted.
+Proof. exact (fun K addr => error_or_nothing K rules_validators (node_wiring addr)). Qed.
+Print Assumptions C01_error_or_nothing.
+(* Outside these theorems: the Go select choice when a decision and the deadline are ready at the same
+   instant (either order is an event list, both are covered). *)
